@@ -181,3 +181,16 @@ Example c01_wild_discovery_nonvacuous :
   map (fun s => libref (db s)) (fk_states wd_cfg (fs_init LNone) wd_hist) =
     [ mkR 0 0; mkR 3 25; mkR 3 25; mkR 3 25; mkR 3 25; mkR 3 25; mkR 4 40; mkR 4 40; mkR 4 40 ].
 Proof. vm_compute. repeat split; reflexivity. Qed.
+
+(* an INPUT class: every block of the history lies strictly above the first streamable block.  There the LIB
+   number never decreases, whatever the blocks declare and whatever the configured LIB is: the whole of
+   c01_statement holds (all three LIB modes, any handler oracle).  Both refutation witnesses feed a block at or
+   under the first streamable block. *)
+Theorem c01_wild_first_partial : c01_wild_first_statement.
+Proof. exact c01_wild_first_proved. Qed.
+Print Assumptions c01_wild_first_partial.
+
+Example c01_wild_first_nonvacuous :
+  above_first_b wm_cfg wm_hist = true /\ above_first_b wd_cfg wd_hist = true /\
+  above_first_b wl_cfg wl_hist = false /\ above_first_b il_cfg il_hist = false /\ above_first_b wl_cfg_disc wl_hist_disc = false.
+Proof. vm_compute. repeat split; reflexivity. Qed.
